@@ -162,6 +162,65 @@ def run(ctx) -> None:
         ok, why = covered(f, c)
         rep.add("C15.R2", inst, ok, loc, why if ok else f"user callable may be awaited outside the limiter: {why}")
 
+    # draining a generator returned by a node function runs the function's body: same obligation
+    n_drain = 0
+    for f in db.all_funcs():
+        if not f.module.name.startswith("hypergraph.runners.async_.executors"):
+            continue
+        for n in walk_local(f.node):
+            site = None
+            if isinstance(n, (ast.ListComp, ast.SetComp, ast.GeneratorExp, ast.DictComp)) and any(g.is_async for g in n.generators):
+                site = n
+            elif isinstance(n, ast.AsyncFor):
+                site = n
+            elif isinstance(n, ast.Call) and dotted(n.func) in ("list", "tuple") and len(n.args) == 1 and isinstance(n.args[0], ast.Name):
+                # list(result) where result was produced by the node function in this executor
+                nm = n.args[0].id
+                produced = nm in f.param_names and False
+                for g in [f] + [x for x in db.all_funcs() if x.module == f.module]:
+                    for d in db.local_defs(g).get(nm, []):
+                        v = getattr(d, "value", None)
+                        v = v.value if isinstance(v, ast.Await) else v
+                        if isinstance(v, ast.Call) and (is_user_func_call(db, v, g) or any(is_user_func_call(db, c2, cal.func) for cal in db.resolve_call(v, g) if cal.func is not None for c2 in db.calls_in(cal.func))):
+                            produced = True
+                if produced:
+                    site = n
+            if site is None:
+                continue
+            n_drain += 1
+            # a synthetic call-like site: reuse the coverage test on the enclosing statement
+            fake = site
+            while not isinstance(fake, ast.stmt):
+                fake = getattr(fake, "_parent", None)
+            holder = ast.Call(func=ast.Name(id="drain", ctx=ast.Load()), args=[], keywords=[])
+            holder._parent = fake  # type: ignore[attr-defined]
+            holder.lineno = getattr(site, "lineno", 0)  # type: ignore[attr-defined]
+            regs = _permit_regions(db, f)
+            if any(contains(r, site) for r in regs):
+                ok, why = True, "inside 'async with <limiter>'"
+            else:
+                lim = _limiter_locals(db, f)
+                if lim:
+                    cfg = ctx.cfg(f)
+                    val = {}
+                    for nm2 in lim:
+                        val[nm2] = True
+                        val[f"{nm2} is None"] = False
+                    live = reachable(cfg.entry, specialize(val))
+                    ns = [x for x in cfg.node_containing(site) if x in live]
+                    ok, why = (not ns), ("only reachable when no limiter is installed" if not ns else f"the generator is drained at line {site.lineno} with a limiter installed but after the permit was released")
+                else:
+                    callers = db.callers_of(f)
+                    ok = bool(callers)
+                    why = "no permit region and no known caller"
+                    for g, c in callers:
+                        o2, w2 = covered(g, c, 1)
+                        if not o2:
+                            ok, why = False, f"drained in {f.name}, which is called from {g.qname.split('hypergraph.')[-1]}:{c.lineno} {w2}"
+                    if ok:
+                        why = f"every caller ({len(callers)}) holds the permit or runs only without a limiter"
+            rep.add("C15.R2", f"{f.qname}:drain-generator@{_ordinal(f, site)}", ok, f"{f.module.rel}:{site.lineno}", why if ok else f"a node's generator body runs outside the limiter: {why}")
+
     # ---- R3 ---------------------------------------------------------------------
     def guarded_by_no_limiter(f: FuncInfo, node: ast.AST) -> tuple[bool, str]:
         lim = _limiter_locals(db, f)
@@ -273,6 +332,16 @@ def run(ctx) -> None:
             rep.add("C15.R5", f"{f.qname}:install-before-spawn", not bad and bool(spawn), f"{f.module.rel}:{bad[0].lineno if bad else f.lineno}", "limiter installation dominates task creation when max_concurrency is given" if not bad else f"item tasks can be created at line {bad[0].lineno} before the limiter is installed (they would not inherit it)")
 
 
+def _ordinal(f: FuncInfo, site: ast.AST) -> int:
+    k = 0
+    for n in walk_local(f.node):
+        if n is site:
+            return k
+        if type(n) is type(site):
+            k += 1
+    return k
+
+
 AF = "src/hypergraph/runners/async_/executors/function_node.py"
 AI = "src/hypergraph/runners/async_/executors/interrupt_node.py"
 AG = "src/hypergraph/runners/async_/executors/graph_node.py"
@@ -289,6 +358,7 @@ VARIANTS = [
         {"C15.R1"},
     ),
     Variant("function-executor-no-permit", AF, replace_once("        if semaphore:\n            async with semaphore:\n                return await self._execute(node, inputs)\n        return await self._execute(node, inputs)", "        return await self._execute(node, inputs)"), {"C15.R2"}),
+    Variant("generator-drained-after-permit", AF, lambda s_: s_.replace("        if semaphore:\n            async with semaphore:\n                return await self._execute(node, inputs)\n        return await self._execute(node, inputs)", "        if semaphore:\n            async with semaphore:\n                result = await self._execute(node, inputs)\n        else:\n            result = await self._execute(node, inputs)\n        if node.is_generator:\n            result = [item async for item in result] if inspect.isasyncgen(result) else list(result)\n        return wrap_outputs(node, result)").replace("        if node.is_generator:\n            result = [item async for item in result] if inspect.isasyncgen(result) else list(result)\n\n        return wrap_outputs(node, result)", "        return result"), {"C15.R2"}),
     Variant("interrupt-handler-outside-permit", AI, replace_once("        if semaphore:\n            async with semaphore:\n                response = await _call_handler(node, input_values)\n        else:\n            response = await _call_handler(node, input_values)", "        response = await _call_handler(node, input_values)"), {"C15.R2"}),
     Variant("function-executor-wrong-branch", AF, replace_once("        if semaphore:\n            async with semaphore:\n                return await self._execute(node, inputs)\n        return await self._execute(node, inputs)", "        if semaphore is None:\n            async with semaphore:\n                return await self._execute(node, inputs)\n        return await self._execute(node, inputs)"), {"C15.R2"}),
     Variant("runner-limiter-unguarded", AR, replace_once("        if existing_limiter is None and max_concurrency is not None:\n            semaphore = asyncio.Semaphore(max_concurrency)", "        if max_concurrency is not None:\n            semaphore = asyncio.Semaphore(max_concurrency)"), {"C15.R3"}),
